@@ -200,6 +200,16 @@ def r1_5(ctx):
                         ctx.violation(construct(g, "dependency-not-registered"), g.loc(),
                                       f"{name}(P, {k_new}) on a task that is {'already linked to P by ' + k_old if k_old else 'not linked to P'} leaves input_task_list={li!r}, "
                                       f"P.output_task_list={lo!r}: the declared {k_new} dependency (or the existing one) is not registered on both sides, so the gates never enforce it")
+    # the argument may be any iterable (a filter / map / generator object): it must be consumed once -- a second pass over a
+    # one-shot iterable sees nothing, so one side of the dependency would stay unregistered
+    g = ctx.repo.lookup_method(TASK, "extend_input_task_list")
+    if g is not None:
+        p1 = g.params[1]
+        uses = [n for n in ast.walk(g.node) if isinstance(n, ast.Name) and n.id == p1 and isinstance(n.ctx, ast.Load)]
+        ctx.instance(construct(g, "single-pass"), sample={"uses": len(uses)})
+        if len(uses) > 1:
+            ctx.violation(construct(g, "argument-consumed-twice"), g.loc(uses[1]), f"extend_input_task_list reads its argument `{p1}` {len(uses)} times: with a one-shot iterable the later "
+                          "pass is empty, so the dependency is registered on one side only and the gates (which read input_task_list) never enforce it")
     ctx.end()
 
 
